@@ -69,6 +69,21 @@ def run_evaluators(ctx, n):
         text = gen.render(prog, rng, "plain")
         envs = [gen.gen_env(prog, rng) for _ in range(5)]
         cases.append({"prog": prog, "text": text, "envs": envs})
+    # sizes: many splitter fields (declared in a shuffled order, some declared twice), long names, long salts, long values
+    for k in (7, 10, 11, 16, 17, 33, 64, 100):
+        names = ["f%d" % i for i in range(k - 2)] + ["F_" + "x" * rng.choice([30, 79, 255]), "Z9"]
+        decl = names + names[:2]
+        rng.shuffle(decl)
+        salt = gen.lit_str(rng.choice(["s", "x" * 55, "y" * 56, "é" * 64, "z" * 1000]), quote='"')
+        prog = gen.Program("e", salt, decl, ("ret", [(gen.lit_str("a", quote='"'), "1"), (gen.lit_str("b", quote='"'), "2"), (gen.lit_str("c", quote='"'), "1")]),
+                           {x: "any" for x in names})
+        envs = []
+        for _ in range(4):
+            env = {x: rng.choice([rng.randrange(100), "v%d" % rng.randrange(9), 1.5, None, True, "", "w" * rng.choice([1, 64, 5000])]) for x in names}
+            items = list(env.items())
+            rng.shuffle(items)                   # keyword arguments in any order
+            envs.append(dict(items))
+        cases.append({"prog": prog, "text": gen.render(prog, rng, "plain"), "envs": envs})
     progcases.run_cases(ctx, cases, want_stages=False)
 
 
